@@ -81,10 +81,12 @@ int splinetable_read_key(const struct splinetable* table, splinetable_dtype type
 		const auto& real_table=*static_cast<const photospline::splinetable<>*>(table->data);
 		switch(type){
 			case SPLINETABLE_INT:
-				real_table.read_key(key,*static_cast<int*>(result));
+				if(!real_table.read_key(key,*static_cast<int*>(result)))
+					return(1);
 				break;
 			case SPLINETABLE_DOUBLE:
-				real_table.read_key(key,*static_cast<double*>(result));
+				if(!real_table.read_key(key,*static_cast<double*>(result)))
+					return(1);
 				break;
 		}
 	}catch(std::exception& ex){
